@@ -15,6 +15,31 @@ namespace Life
   | nil => rfl
   | cons o l ih => cases o <;> simp [ih]
 
+@[simp] theorem evs_ite_note (c : Prop) [Decidable c] (t : String) :
+    evs (if c then [Out.note t] else []) = [] := by split <;> rfl
+
+@[simp] theorem doLink_fst (a : Actor) (p : Nat) : (doLink a p).1 = { a with sup := some p } := rfl
+
+@[simp] theorem evs_doLink (a : Actor) (p : Nat) : evs (doLink a p).2 = [] := by
+  unfold doLink
+  cases a.sup with
+  | none => rfl
+  | some q => simp only [evs_cons_eff]; split <;> rfl
+
+theorem apiKill_ok_sigVal (a : Actor) (h : (apiKill a).2 = true) : (apiKill a).1.sigVal = true := by
+  unfold apiKill at h ⊢
+  split
+  · rename_i h1; simp [h1] at h
+  · split
+    · rename_i h1 h2; simp [h1, h2] at h
+    · rfl
+
+@[simp] theorem evs_map_monSend (l : List Nat) (e : SupEv) :
+    evs (l.map (fun x => Out.eff (.monSend x e))) = [] := by
+  induction l with
+  | nil => rfl
+  | cons x l ih => simpa using ih
+
 @[simp] theorem andThen_fst (x : M) (f : Actor → M) : (andThen x f).1 = (f x.1).1 := rfl
 @[simp] theorem andThen_snd (x : M) (f : Actor → M) : (andThen x f).2 = x.2 ++ (f x.1).2 := rfl
 
@@ -30,14 +55,15 @@ theorem step_eq (a : Actor) (op : AOp) :
 /-! ### exit paths only emit supervision events and the join / spawn result -/
 
 def Ev.isExitNoise : Ev → Bool
-  | .emit _ _ | .join _ | .spawnRet _ => true
+  | .emit _ _ | .join _ | .spawnRet _ | .monFan _ _ _ => true
   | _ => false
 
 theorem cleanup_noise (a : Actor) (e : Option SupEv) : ∀ x ∈ evs (cleanup a e).2, x.isExitNoise = true := by
   unfold cleanup
   split
   · simp
-  · cases e <;> cases hs : a.sup <;> simp [Actor.setStatus, hs, Ev.isExitNoise]
+  · cases e <;> cases hs : a.sup <;> cases hm : a.mons <;>
+      simp [Actor.setStatus, hs, hm, notifyOuts, Ev.isExitNoise, evs_map_monSend]
 
 theorem finish_noise (a : Actor) (e : SupEv) : ∀ x ∈ evs (finish a e).2, x.isExitNoise = true := by
   intro x hx
@@ -103,6 +129,15 @@ theorem Sim.andThen {R1 R2 : Actor → σ → Prop} {s : σ} {x : M} {f : Actor 
     Sim next R2 s (andThen x f) := by
   obtain ⟨s1, ha, hr⟩ := h1
   obtain ⟨s2, hb, hr2⟩ := h2 _ _ hr
+  exact ⟨s2, by simp [accepts_append next _ ha, hb], hr2⟩
+
+/-- `Sim.andThen` whose continuation also learns that the first part's trace was accepted. -/
+theorem Sim.andThen' {R1 R2 : Actor → σ → Prop} {s : σ} {x : M} {f : Actor → M}
+    (h1 : Sim next R1 s x)
+    (h2 : ∀ a s1, R1 a s1 → accepts next s (evs x.2) = .ok s1 → Sim next R2 s1 (f a)) :
+    Sim next R2 s (Life.andThen x f) := by
+  obtain ⟨s1, ha, hr⟩ := h1
+  obtain ⟨s2, hb, hr2⟩ := h2 _ _ hr ha
   exact ⟨s2, by simp [accepts_append next _ ha, hb], hr2⟩
 
 theorem Sim.pure {R : Actor → σ → Prop} {s : σ} {a : Actor} (h : R a s) :
